@@ -56,6 +56,7 @@ def run(ctx):
     for i in range(40 * n):
         c, qs = mcircuits.pauli_measure_circuit(cirq, ctx.rng)
         case_checks(ctx, cirq, c, qs, 'pauli', checks)
+    terminal_order_grid(ctx, cirq, checks)
     noisy_terminal_checks(ctx, cirq, checks, 24 * n)
     sample_stream(ctx, cirq, 25 * n)
     evaluate(ctx, checks)
@@ -183,6 +184,50 @@ def repetition_checks(ctx, cirq, c, qs, mode, checks):
         for which, m in (('first', m1), ('second', m2)):
             checks.append((entry, f'dist_ok {TOL} {model} {dist_literal(m)}',
                            f'{entry}: the {which} of two repetitions does not have the Born-rule distribution on {desc} (got {sorted(m.items())})', rp))
+
+
+def terminal_order_grid(ctx, cirq, checks):
+    """Terminal measurements sampled from a product of independent sub-states (split_untangled_states=True), the measured qubits listed
+    in EVERY order: separate qubits, an entangled pair plus a spectator, two pairs - in distinguishable states (fixed for every seed)."""
+    import itertools
+    qs3 = cirq.LineQubit.range(3)
+    qs4 = cirq.LineQubit.range(4)
+    preps = [
+        ('separate', qs3, [cirq.X(qs3[0]), cirq.H(qs3[1]), cirq.Y(qs3[2]) ** 0.3]),
+        ('pair+spectator', qs3, [cirq.H(qs3[0]), cirq.CNOT(qs3[0], qs3[2]), cirq.X(qs3[1])]),
+        ('spectator+pair', qs3, [cirq.X(qs3[0]) ** 0.3, cirq.H(qs3[2]), cirq.CNOT(qs3[2], qs3[1]), cirq.X(qs3[1])]),
+        ('two pairs', qs4, [cirq.H(qs4[0]), cirq.CNOT(qs4[0], qs4[3]), cirq.X(qs4[3]), cirq.Y(qs4[2]) ** 0.3, cirq.CNOT(qs4[2], qs4[1])]),
+    ]
+    for name, qs, prep in preps:
+        perms = list(itertools.permutations(range(len(qs))))
+        if len(qs) == 4:
+            perms = perms[::3] if ctx.tier == 'quick' else perms
+        for perm in perms:
+            for joint in (True, False):
+                c = cirq.Circuit(prep)
+                if joint:
+                    c.append(cirq.measure(*[qs[i] for i in perm], key='m'))
+                else:
+                    c.append([cirq.measure(qs[i], key=f'k{j}') for j, i in enumerate(perm)])
+                try:
+                    mops, meas, _ = opsem.circuit_to_mops(cirq, c, list(qs))
+                except opsem.Unsupported:
+                    continue
+                shape = gates.nlist([2] * len(qs))
+                model = f'(exec FOps {shape} {mops} {gates.fvec(np.eye(2 ** len(qs))[0])})'
+                desc = f'{name}, measured in order {list(perm)} ({"one key" if joint else "one key per qubit"})'
+                for entry, Sim in (('Simulator.run', cirq.Simulator), ('DensityMatrixSimulator.run', cirq.DensityMatrixSimulator)):
+                    try:
+                        br = enumerate_runs(lambda s: opsem.flat_record(Sim(seed=s, split_untangled_states=True).run(c, repetitions=1).records, meas))
+                    except BranchExplosion:
+                        continue
+                    dist = {}
+                    for p, r, _ in br:
+                        dist[tuple(r)] = dist.get(tuple(r), 0.0) + p
+                    ctx.count(entry + '[terminal order grid]', [name, list(perm), joint, entry], True, sample=dict(preparation=name, order=list(perm), joint=joint, entry=entry))
+                    checks.append((entry, f'dist_ok {TOL} {model} {dist_literal(dist)}',
+                                   f'{entry} (split_untangled_states=True): terminal measurement of {desc}: joint distribution differs from the Born-rule semantics (got {sorted(dist.items())})',
+                                   dict(signature=f'{entry}:terminal-order:{name}', entry=entry, circuit=repr(c), mode='terminal-order')))
 
 
 def noisy_terminal_checks(ctx, cirq, checks, n):
